@@ -26,9 +26,11 @@ RULE = ("Each case = a generated committed base history (1-3 transactions, 0-3 s
         "remove_field, merge policy merge=False | default | optimize | CLEAR, compound or loose segment files, codec "
         "block limit 1/3/128, ended by commit() or cancel(). A storage wrapper numbers every operation the writer "
         "issues through the storage layer (create, every write, flush, close, rename, delete, lock acquire/release, "
-        "temp-directory create/remove). For EVERY boundary k the transaction is re-run in a forked child that dies with "
-        "os._exit at k (real process death: buffers lost, flock dropped by the kernel, nothing unwound); at a subset "
-        "of boundaries (quick: every 7th, thorough: all) three more children die there after putting the files still "
+        "temp-directory create/remove). For EVERY boundary k the directory that a death of the process at k leaves behind "
+        "is materialised (copy of the directory = the bytes the OS already has; nothing unwound); every 16th boundary and "
+        "every boundary from the creation of the TOC on is also produced for real, by a forked child that re-runs the "
+        "transaction and dies with os._exit(137) at k, and must leave the same files. At a subset of boundaries (quick: "
+        "every 7th, thorough: all, wider for very long transactions) three more survivors are made by putting the files still "
         "open into another prefix (all buffered bytes flushed / truncated to 0 / flushed and cut to half). Oracle on each "
         "surviving directory: open_dir succeeds; the logical dump and probe-query results equal exactly the dump before "
         "the transaction or exactly the dump after it (taken from an un-crashed run and cross-checked against the "
@@ -42,7 +44,7 @@ ASSUMPTIONS = [
 ]
 EXHAUSTIVE = {
     "quick": "per generated transaction: every storage-operation boundary (mode as-is); other prefix modes at every 7th boundary",
-    "thorough": "per generated transaction: every storage-operation boundary x 4 on-disk prefix modes",
+    "thorough": "per generated transaction: every storage-operation boundary (mode as-is); the 3 other prefix modes at every boundary of transactions up to ~800 boundaries, at every n-th boundary of longer ones (n = boundaries*3/2500, 13 over ~100-segment bases)",
 }
 
 MODES = ("asis", "flush_all", "trunc0", "half")
@@ -232,6 +234,10 @@ def run(case, out):
         seen_states = {}
         counters = {"nontrivial": 0, "old": 0, "new": 0, "forked": 0}
         stride = case.get("stride", 1)
+        # keep one transaction within a few minutes: the three extra prefix modes are applied at every stride-th
+        # boundary, and long transactions over many segments (where every judgement re-reads ~100 segments) get a
+        # wider stride; the as-is mode is still applied at EVERY boundary
+        stride = max(stride, -(-nbound * 3 // 2500), 13 if case.get("pad", 0) >= 90 else 1)
         work = os.path.join(d, "work")
         shutil.copytree(base, work)
         surv = os.path.join(d, "survivor")
@@ -407,5 +413,5 @@ def run(case, out):
 
 
 SUBS = {
-    "crash": Sub(run, strategy, quick=3, thorough=25, quick_shards=8, case_timeout=1800),
+    "crash": Sub(run, strategy, quick=3, thorough=16, quick_shards=8, case_timeout=3600),
 }
